@@ -53,6 +53,10 @@ pub struct Case {
     /// still wait for everybody's start
     #[serde(default)]
     pub quick_members: bool,
+    /// the members of the group are named with -t and the run is made with --deps (they still
+    /// form one group; what they depend on is pulled in)
+    #[serde(default)]
+    pub named_deps: bool,
 }
 
 pub fn strategy(max_n: usize) -> impl Strategy<Value = Case> {
@@ -107,6 +111,7 @@ pub fn strategy(max_n: usize) -> impl Strategy<Value = Case> {
                 undefined_member: gp % 4 == 0,
                 big_args: gp % 5 == 1,
                 quick_members: gp % 3 == 2,
+                named_deps: gp % 4 == 1,
                 cpus: if n <= 16 && !listener {
                     match gp % 7 {
                         3 => 1,
@@ -193,6 +198,13 @@ fn attempt(case: &Case, w: usize, timeout_ms: u64) -> Result<(bool, CaseInfo, Va
     for c in &commands {
         args.push(c);
     }
+    if case.named_deps {
+        args.push("-t");
+        for m in members.iter() {
+            args.push(m);
+        }
+        args.push("--deps");
+    }
     let mut history_failures = 0;
     if case.history != 0 {
         // an earlier run without any rendezvous; what it recorded must not change how the
@@ -274,6 +286,7 @@ fn attempt(case: &Case, w: usize, timeout_ms: u64) -> Result<(bool, CaseInfo, Va
         .class_if(case.nofile_per_member > 0, "modest-open-files-limit")
         .class_if(case.cpus > 0, "confined-to-1-2-cpus")
         .class_if(case.quick_members, "a-third-of-the-members-exit-at-once")
+        .class_if(case.named_deps, "members-named-with--t-and---deps")
         .class_if(case.early_output > 0, "members-print-more-than-a-pipe-buffer-first")
         .class_if(undefined.is_some(), "one-member-does-not-define-the-command")
         .class_if(case.big_args && !case.shared_exe, "one-member-gets-100KiB-of-arguments")
@@ -330,7 +343,7 @@ pub fn run(ctx: &mut Ctx) {
     ctx.hang_limit = std::time::Duration::from_secs(600);
     ctx.shrink_budget = std::time::Duration::from_secs(1);
     ctx.rule = "layered configuration with one layer of n mutually independent targets (n in 2..24, and the size boundaries 31-34 and 63-66; thorough: up to 130) placed first / in the middle / last, \
-1-3 commands, tokio worker threads in {1,2,4,16}, 30% with a `log tail` listener attached, some small groups with the whole run confined to 1 or 2 CPUs (sched_setaffinity, as in a small container), 30% with one script shared by all targets through commands.definitions; half of the cases after an earlier run of the same commands (all succeeding, all group members failing, or a random part of the group failing); the groups are read from `analyze --target-groups`, one group of size >= 2 is chosen and all its members run the helper in \
+1-3 commands, tokio worker threads in {1,2,4,16}, 30% with a `log tail` listener attached, a quarter of the runs naming the group's members with -t and --deps, some small groups with the whole run confined to 1 or 2 CPUs (sched_setaffinity, as in a small container), 30% with one script shared by all targets through commands.definitions; half of the cases after an earlier run of the same commands (all succeeding, all group members failing, or a random part of the group failing); the groups are read from `analyze --target-groups`, one group of size >= 2 is chosen and all its members run the helper in \
 barrier mode (wait until all members have started; in a third of the cases every third member only announces its start and exits at once) under the 1st-3rd command. oracle: run exits 0, every member started, no barrier time-out (20 s, confirmed with 40 s). \
 non-trivial = group size >= 3; distinct by SHA-256"
         .to_string();
